@@ -407,7 +407,8 @@ impl<'a, T: ColumnProvider> ExpressionExecutionEngine<'a, T> {
                     Function::TimestampNow if arguments.len() == 0 => {
                         Ok(Value::Timestamp(Local::now()))
                     }
-                    Function::MakeTimestamp if arguments.len() == 8 => {
+                    // The documented form has seven arguments; an eighth one used to be required (and is still accepted) but is never read
+                    Function::MakeTimestamp if arguments.len() == 7 || arguments.len() == 8 => {
                         match (&executed_arguments[0], &executed_arguments[1], &executed_arguments[2], &executed_arguments[3], &executed_arguments[4], &executed_arguments[5], &executed_arguments[6]) {
                             (Value::Int(year), Value::Int(month), Value::Int(day), Value::Int(hour), Value::Int(minute), Value::Int(second), Value::Int(microsecond)) => {
                                 // Parts that do not fit their field give NULL, like any other invalid date
